@@ -44,6 +44,10 @@ CLAUSES = [
      "overshooting slices (gen_chain), exhaustive bounds in the thorough tier"),
     ("the source frame is left unchanged", "keys source-modified, index-argument-modified",
      "deep snapshot of the frame and of the index object around every step; shared index objects"),
+    ("RAISES backed by the statement: no-raise:int|list|tensor|range (out-of-range entry: the result cannot 'contain exactly "
+     "the selected rows ... agreeing with selecting from each column separately'), no-raise:featureless ('reported length "
+     "equals the number of selected rows'); raises:* (a valid selection must RETURN); NOT backed, relaxed to raise-or-"
+     "coherent: wrong-length mask, slice step <= 0", "keys no-raise:*, raises:*", "bad stream of gen_index, boundary stream"),
     ("quantifier: explicit num_rows and no features; chains of selections",
      "keys no-raise:featureless, wrong-len:featureless:*", "feature-less frames, chains of 1-4 steps"),
     ("quantifier: all TensorFrames -- however constructed / handed over",
@@ -84,6 +88,11 @@ TRUSTED = [
     "harness/c07.py + harness/frames.py + harness/ragged.py (generator, per-column nested-list oracle, Coq printer)",
 ]
 ASSUMPTIONS = [
+    "raises are demanded only where the statement forces them: an out-of-range integer / list / range / tensor entry "
+    "cannot 'contain exactly the selected rows' (also on feature-less frames: 'reported length equals the number of "
+    "selected rows'); a boolean mask of the wrong length and a slice with a non-positive step are 'raise or consistent': "
+    "the current code raises, the oracle accepts a raise or any frame that is coherent across stypes and the target, and "
+    "the Coq term is not compared when the implementation returned normally there",
     "index expressions are those the property lists and IndexSelectType declares: int, slice, list of ints, range, "
     "1-D integer (long) index tensor, 1-D bool mask tensor.  A Python LIST of bools, a uint8 tensor and a 0-dim index "
     "tensor are outside the quantifier (torch reads a bool list / uint8 tensor as a mask on dense tensors while the "
@@ -412,6 +421,39 @@ def check_rids(o, rids):
     return None
 
 
+# index expressions on which the current code raises but for which the statement demands nothing ("raise or consistent")
+UNBACKED_RAISES = ("mask length", "non-positive step")
+
+
+def coherent_any(g):
+    """a returned frame whose expected rows are undefined must still be ONE set of rows: every feature of every stype and
+    the target have len(frame) rows and row i carries the id of one original row everywhere; names are a dict of lists"""
+    if "read_exc" in g:
+        return "the result cannot be read: " + g["read_exc"]
+    got = g["frame"]
+    n = got["len"]
+    ids = [set() for _ in range(n)]
+    for s_, f in got["feats"]:
+        for key, nr, c, m in f["comps"]:
+            if nr != n or len(m) != n:
+                return f"{s_} has {nr} rows, the frame reports {n}"
+            for i, row in enumerate(m):
+                for cell in row:
+                    for x in cell:
+                        if F.rid_of(x) is not None:
+                            ids[i].add(F.rid_of(x))
+    if got["y"] is not None:
+        if len(got["y"]) != n:
+            return f"y has {len(got['y'])} rows, the frame reports {n}"
+        for i, x in enumerate(got["y"]):
+            if F.rid_of(x) is not None:
+                ids[i].add(F.rid_of(x))
+    for i, st in enumerate(ids):
+        if len(st) > 1:
+            return f"row {i} mixes data of original rows {sorted(st)}"
+    return None
+
+
 def judge_step(k, ix, g, ref, rids, kd, where=""):
     """one selection against the per-column nested-list reference; returns (failure | None, new ref, new rids)"""
     if not g.get("src_same", True):
@@ -424,6 +466,14 @@ def judge_step(k, ix, g, ref, rids, kd, where=""):
         exp = F.ref_select(ref, ix)
         pos = R.ref_positions(ix if ix["t"] != "int" else {"t": "list", "l": [ix["i"]]}, ref["len"])
     except R.RefErr as ex:
+        if g["ok"] and str(ex) in UNBACKED_RAISES:
+            # the statement does not say what such an index selects: a raise OR any frame that is coherent across
+            # stypes and the target is accepted; nothing further is judged on this chain
+            bad = coherent_any(g)
+            if bad:
+                return dict(key=f"incoherent-rows:{kd}:{ix['t']}", what=f"step {k}{where}: tf[{ix}] ({ex}) returned a "
+                            f"frame that is not coherent: {bad}", observed=g.get("frame")), ref, rids
+            return None, None, rids
         if g["ok"]:
             if kd == "empty":
                 if g.get("frame", {}).get("len") != 0:
@@ -647,7 +697,18 @@ def coq_term(case, obs):
     if "steps" not in obs or any("read_exc" in s for s in obs["steps"]):
         return None
     expr = F.coq_frame(case["frame"])
-    steps = obs["steps"]
+    steps = list(obs["steps"])
+    n_ = obs["start"]["len"]
+    for k_, (ix, st) in enumerate(zip(case["chain"], steps)):
+        try:
+            R.ref_positions(ix if ix["t"] != "int" else {"t": "list", "l": [ix["i"]]}, n_)
+        except R.RefErr as ex:
+            if st["ok"] and str(ex) in UNBACKED_RAISES:
+                steps = steps[:k_]          # the model mirrors the current raise: not compared where the code returned normally
+            break
+        if not st["ok"] or "frame" not in st:
+            break
+        n_ = st["frame"]["len"]
     chain = C.clist(case["chain"][:len(steps)], R.coq_index)
     o = C.clist([obs["start"]] + [s.get("frame") if s["ok"] else None for s in steps], F.coq_obs)
     term = f"(c07_check {expr} {chain} {o} && c07_stmt {expr} {chain})"
